@@ -122,7 +122,9 @@ class Row:
         vals = arg_values(canon, nargs)
         tt = targets_text(canon, self.pat)
         self.line = (name + fmt_args(vals) + " " + tt).strip()
-        self.key = (name + fmt_args(vals, short=True) + " " + tt).strip()
+        # the kind pattern is part of the key: replay file names keep only [A-Za-z0-9_.-], which would merge
+        # `MRX 0` / `MRX !0` and `MPP X0*Y1` / `MPP X0 Y1`
+        self.key = (name + fmt_args(vals, short=True) + " " + tt).strip() + (" [" + ".".join(self.pat) + "]" if self.pat else "")
         self.gd = stim.gate_data(canon)
 
     def coq(self) -> str:
@@ -278,7 +280,8 @@ def build_vocab() -> list[Row]:
                 for pat in patterns_for(name, canon, nargs, alias=(name != canon)):
                     r = Row(name, canon, pat, nargs)
                     r.valid = stim_simulates(r)
-                    r.args_sem = args_semantic(canon, gd, inert)
+                    # the arguments of an instruction without targets cannot matter (except declaring an observable index)
+                    r.args_sem = args_semantic(canon, gd, inert) and (bool(pat) or gd.takes_measurement_record_targets)
                     r.roles = true_roles(r, inert)
                     rows.append(r)
     return rows
@@ -348,6 +351,9 @@ def probe_text(row: Row, setting: str) -> str:
     gd = row.gd
     n = len(row.pat)
     live = [i for i, k in enumerate(row.pat) if k != "COMB" and not (row.canon == "MPAD")]
+    if not live and setting != "det":
+        n = max(n, 1)
+        live = [n - 1]           # spectator pair: a probe always has something to read out
     L: list[str] = []
     nrec = max(n, 1) if gd.takes_measurement_record_targets else 0
     if nrec:
@@ -479,7 +485,7 @@ def select_quick(rows: list[Row]) -> list[int]:
     classical (rec / sweep) target, every pattern of the annotations"""
     chosen: dict = {}
     for i, r in enumerate(rows):
-        tags = [(r.name, "nargs", r.nargs)] + [(r.name, k) for k in set(r.pat)] + ([(r.name, "empty")] if not r.pat else [])
+        tags = ([(r.name, "nargs", r.nargs)] if r.pat else []) + [(r.name, k) for k in set(r.pat)] + ([(r.name, "empty", r.nargs)] if not r.pat else [])
         for t in tags:
             if t not in chosen or len(rows[chosen[t]].pat) > len(r.pat):
                 chosen[t] = i
@@ -543,14 +549,16 @@ def run(ctx: Ctx) -> int:
     # ---- which rows
     idx = select_quick(rows) if ctx.quick else list(range(len(rows)))
     if os.environ.get("C12_ONLY"):
-        idx = [i for i, r in enumerate(rows) if r.key == os.environ["C12_ONLY"]]
+        idx = [i for i, r in enumerate(rows) if os.environ["C12_ONLY"] in (r.key, r.line)]
     n_stim = 4000 if ctx.quick else 20000
     jobs = []
     for i in idx:
         r = rows[i]
         sets = settings_for(r)
+        # Stim's detector sampler adds frame anticommutation for Pauli terms of an observable (no record parity): no cross-check
+        ns = 0 if (is_annotation(r) and any(k in PAULI_KINDS for k in r.pat)) else n_stim
         for s in sets:
-            jobs.append((r.key, s, probe_text(r, s), s == "det", n_stim, ctx.rng.getrandbits(31)))
+            jobs.append((r.key, s, probe_text(r, s), s == "det", ns, ctx.rng.getrandbits(31)))
     workers = int(os.environ.get("C12_WORKERS", "8"))
     ctx.log(f"{len(idx)} rows, {len(jobs)} probe circuits, {workers} workers")
     results = run_jobs(jobs, workers)
